@@ -38,4 +38,84 @@ def ge (a b half : Int) : Bool := eq a b || gt a b half
 def add (a b maxAdd modulo : Int) : Option Int :=
   if b ≤ maxAdd then some ((a + b) % modulo) else none
 
+
+/-! ## Histories (programs over several SerialNumber objects)
+
+A program constructs objects `SerialNumber(num, bits)` (slots `0..k-1`) and then performs
+operations between slots.  `_convertOther` accepts any `SerialNumber` instance (subclasses
+included, the class is not part of the model) of the SAME `_serialBits`; otherwise the magic
+method returns `NotImplemented`, which Python turns into `TypeError` for `<,>,<=,>=,+,+=` and
+into identity comparison (`False` for two different objects) for `==`.
+`s + n` / `s += n` (there is no `__iadd__`: `+=` is `s = s + n`, the old object is untouched)
+append the NEW object to the slots; a refused / ill-typed addition appends an empty slot.
+Objects are immutable: no operation changes an existing slot. -/
+
+inductive Kind
+  | eq | lt | gt | le | ge | add | iadd
+  deriving DecidableEq, Repr
+
+structure Op where
+  kind : Kind
+  i : Nat
+  j : Nat
+  deriving Repr
+
+/-- a slot: `none` = no object (an addition that raised), `some (number, serialBits)` -/
+abbrev Slot := Option (Int × Nat)
+
+inductive Res
+  | bool (b : Bool)
+  /-- the new object `(number, serialBits)` and `new > s`, `new < s`, `new == s` -/
+  | sum (val : Int) (bits : Nat) (g l e : Bool)
+  | arith     -- ArithmeticError
+  | type      -- TypeError
+  | skip      -- an operand slot is empty / out of range
+  deriving DecidableEq, Repr
+
+/-- comparison `kind` on two objects of the same width -/
+def cmpK (k : Kind) (a b h : Int) : Bool :=
+  match k with
+  | .eq => eq a b
+  | .lt => lt a b h
+  | .gt => gt a b h
+  | .le => le a b h
+  | _ => ge a b h
+
+def slotAt (objs : List Slot) (i : Nat) : Slot := (objs[i]?).getD none
+
+/-- one operation: its observable result and the new slot list -/
+def step (objs : List Slot) (op : Op) : Res × List Slot :=
+  match slotAt objs op.i, slotAt objs op.j with
+  | some (a, wa), some (b, wb) =>
+    match op.kind with
+    | .add | .iadd =>
+      if wa = wb then
+        match add a b (maxAdd wa) (modulo wa) with
+        | some r =>
+          let r := mk r wa
+          (.sum r wa (gt r a (halfRing wa)) (lt r a (halfRing wa)) (eq r a), objs ++ [some (r, wa)])
+        | none => (.arith, objs ++ [none])
+      else (.type, objs ++ [none])
+    | .eq => (.bool (decide (wa = wb) && eq a b), objs)
+    | k => if wa = wb then (.bool (cmpK k a b (halfRing wa)), objs) else (.type, objs)
+  | _, _ =>
+    match op.kind with
+    | .add | .iadd => (.skip, objs ++ [none])
+    | _ => (.skip, objs)
+
+def run : List Slot → List Op → List Res × List Slot
+  | objs, [] => ([], objs)
+  | objs, op :: ops =>
+    let (r, objs') := step objs op
+    let (rs, objs'') := run objs' ops
+    (r :: rs, objs'')
+
+/-- `s + n₁ + n₂ + …` (each `+` is `__add__`); `none` as soon as one addition is refused -/
+def addMany (a : Int) (ns : List Int) (maxAdd modulo : Int) : Option Int :=
+  match ns with
+  | [] => some a
+  | n :: ns => match add a n maxAdd modulo with
+    | some r => addMany r ns maxAdd modulo
+    | none => none
+
 end Twisted.Dns.Serial
